@@ -54,6 +54,7 @@ export const PROBES = [
 // that told the two behaviours apart; `expect` is TypeScript's verdict, "diagnostic" a refusal.
 const fn0 = () => 1;
 export const TEXT_PROBES = [
+  { id: "enum-member-initialised-with-an-earlier-member", text: 'enum E { A = "a", B = A, C = B, D = E.A, N = 1, M = N }\ntype X = { b: E.B; c: E.C; d: E.D; m: E.M };', cases: [[{ b: "a", c: "a", d: "a", m: 1 }, "Y"], [{ b: "b", c: "a", d: "a", m: 1 }, "N"], [{ b: "a", c: "a", d: "a", m: 2 }, "N"]] },
   { id: "typeof-const-primitive-is-its-literal", text: 'const x = "pre";\nconst n = 5;\ntype X = { a: typeof x; n: typeof n };', cases: [[{ a: "pre", n: 5 }, "Y"], [{ a: "other", n: 5 }, "N"], [{ a: "pre", n: 6 }, "N"]] },
   { id: "typeof-spread-later-wins", text: 'const defaults = { mode: "light", size: 1 } as const;\nconst overrides = { mode: "dark" } as const;\nconst cfg = { ...defaults, ...overrides } as const;\ntype X = typeof cfg;', cases: [[{ mode: "dark", size: 1 }, "Y"], [{ mode: "light", size: 1 }, "N"], [{ mode: "dark" }, "N"]] },
   { id: "typeof-spread-after-explicit", text: 'const o = { a: "x", b: 2 } as const;\nconst cfg = { a: 1, ...o } as const;\ntype X = typeof cfg;', cases: [[{ a: "x", b: 2 }, "Y"], [{ a: 1, b: 2 }, "N"]] },
